@@ -50,7 +50,16 @@ OTHER = interface.DBusInterface('org.ex.Other', interface.Method('Pair', argumen
                                 interface.Method('Words', arguments='sa{sv}', returns='as'), noRegister=True)
 
 
-class Srv(objects.DBusObject):
+# an older declaration of org.ex.Echo, listed by the base class: the derived class's fuller declaration of the same
+# name is the one calls are dispatched with, so it is the one introspection has to describe
+IFACE_V1 = interface.DBusInterface('org.ex.Echo', interface.Method('Echo', arguments='sa{sv}', returns='s(is)'), noRegister=True)
+
+
+class SrvBase(objects.DBusObject):
+    dbusInterfaces = [IFACE_V1]
+
+
+class Srv(SrvBase):
     """ONE class for the exported object and for the decoys other clients export at the same path: what a call
     runs and logs must be the instance it was addressed to."""
     # the same members are also declared on an interface listed FIRST: a call that names
